@@ -27,6 +27,9 @@ def dataIdx (g : SGrid) (c : List Nat) : List Nat :=
 theorem dataShape_xyz (g : SGrid) (hw : WF g) :
     g.dataShape = if g.rev then (xyzShape g).reverse else xyzShape g := dataShape_eq g hw.nonempty
 
+theorem dataIdx_length (g : SGrid) (c : List Nat) : (dataIdx g c).length = c.length := by
+  unfold dataIdx; split <;> simp [flipIdxAll_length]
+
 theorem xyz_length (g : SGrid) : (xyzShape g).length = g.axes.length := by
   unfold xyzShape locAxes cellAxes; split <;> simp
 
@@ -301,24 +304,25 @@ theorem shape_relation (g h : SGrid) (hax : g.axes = h.axes) (hloc : g.loc = h.l
 theorem compatible_iff_same_locations (g h : SGrid) :
     g.compatibleWith h = true ↔
       g.dim = h.dim ∧ g.crs = h.crs ∧ g.loc = h.loc ∧ g.axes = h.axes := by
-  unfold compatibleWith
   constructor
   · intro hc
-    split at hc
-    · cases hc
-    · rename_i h1
-      simp only [Bool.not_eq_true, Bool.not_eq_false', Bool.and_eq_true, beq_iff_eq] at h1
-      split at hc
-      · cases hc
-      · obtain ⟨⟨hd, hcrs⟩, hl⟩ := h1
+    unfold compatibleWith at hc
+    by_cases h1 : (g.dim == h.dim && g.crs == h.crs && g.loc == h.loc) = true
+    · rw [if_neg (by simp [h1])] at hc
+      by_cases h2 : (g.dataShape != (if g.rev != h.rev then h.dataShape.reverse else h.dataShape)) = true
+      · rw [if_pos h2] at hc; cases hc
+      · rw [if_neg h2] at hc
+        simp only [Bool.and_eq_true, beq_iff_eq] at h1
+        obtain ⟨⟨hd, hcrs⟩, hl⟩ := h1
         refine ⟨hd, hcrs, hl, ?_⟩
-        have hlen : g.axes.length = h.axes.length := hd
-        exact (zip_all_eq g.axes h.axes hlen).mp (by simpa [axisClose] using hc)
+        exact (zip_all_eq g.axes h.axes hd).mp (by simpa [axisClose] using hc)
+    · rw [if_pos (by simp [h1])] at hc; cases hc
   · rintro ⟨hd, hcrs, hl, hax⟩
     have hsh := shape_relation g h hax hl
-    simp only [hd, hcrs, hl, beq_self_eq_true, Bool.and_self, Bool.not_true, Bool.false_eq_true, if_false]
-    rw [if_neg (by simp [hsh])]
-    exact (zip_all_eq g.axes h.axes (by rw [hax])).mpr hax |> fun x => by simpa [axisClose] using x
+    unfold compatibleWith
+    rw [if_neg (by simp [hd, hcrs, hl]), if_neg (by rw [← hsh]; simp)]
+    have := (zip_all_eq g.axes h.axes (by rw [hax])).mpr hax
+    simpa [axisClose] using this
 
 /-- compatible grids describe the same set of data locations: same canonical shape, and the same
     coordinate at every canonical position -/
@@ -335,7 +339,7 @@ theorem compatible_same_locations (g h : SGrid) (hg : WF g) (hh : WF h) (hc : g.
 /-! ### The transform between compatible layouts, with a leading time axis -/
 
 theorem moveFirstToLast_get {α} (a : Arr α) (T : Nat) (sh : List Nat) (ha : a.shape = T :: sh)
-    (i : List Nat) (t : Nat) (hi : i.length = sh.length) :
+    (i : List Nat) (t : Nat) (_hi : i.length = sh.length) :
     a.moveFirstToLast.shape = sh ++ [T] ∧ a.moveFirstToLast.get (i ++ [t]) = a.get (t :: i) := by
   simp [Arr.moveFirstToLast, ha]
 
@@ -361,13 +365,15 @@ theorem transform_preserves_location {α} (g h : SGrid) (hg : WF g) (hh : WF h)
   have hhl := dataShape_length h hh
   have hxl := xyz_length g
   have hasTime : (a.ndim == g.dataShape.length + 1) = true := by simp [Arr.ndim, ha]
+  have hcl : ∀ j, InB h.dataShape j → (h.canonIdx j).length = (xyzShape g).length := fun j hj => by
+    rw [hx]; exact (canonIdx_inB h hh j hj).length_eq
   -- step 1: the array handed to to_canonical and its canonical form
-  have step1 : ∃ c, (g.toCanonical (if (true && !g.rev) = true then a.moveFirstToLast else a)) = .ok c ∧
+  have step1 : ∃ c, (g.toCanonical (if g.rev then a else a.moveFirstToLast)) = .ok c ∧
       c.shape = xyzShape g ++ [T] ∧
       ∀ ci t, ci.length = (xyzShape g).length → c.get (ci ++ [t]) = a.get (t :: dataIdx g ci) := by
     cases hr : g.rev with
     | false =>
-      simp only [Bool.not_false, Bool.and_self, if_true]
+      simp only [Bool.false_eq_true, if_false]
       have hm := fun i t hi => moveFirstToLast_get a T g.dataShape ha i t hi
       obtain ⟨c, h1, h2, h3⟩ := toCanonical_spec g hg a.moveFirstToLast [T]
         (by simp [hr, (hm (List.replicate g.dataShape.length 0) 0 (by simp)).1])
@@ -375,9 +381,130 @@ theorem transform_preserves_location {α} (g h : SGrid) (hg : WF g) (hh : WF h)
       have := h3 ci [t] hci rfl
       simp only [hr, Bool.false_eq_true, if_false] at this
       rw [this]
-      exact (hm _ t (by rw [(dataIdx_inB g hg ci ?_).length_eq])).2
-      sorry
-    | true => sorry
-  sorry
+      exact (hm _ t (by rw [dataIdx_length, hci, hxl, hgl])).2
+    | true =>
+      simp only [if_true]
+      obtain ⟨c, h1, h2, h3⟩ := toCanonical_spec g hg a [T] (by simp [hr, ha])
+      refine ⟨c, h1, h2, fun ci t hci => ?_⟩
+      have := h3 ci [t] hci rfl
+      simp only [hr, if_true, List.reverse_cons, List.reverse_nil, List.nil_append, List.cons_append] at this
+      exact this
+  obtain ⟨c, hc1, hc2, hc3⟩ := step1
+  -- step 2: from_canonical on the consumer side
+  obtain ⟨b, hb1, hb2, hb3⟩ := fromCanonical_spec h hh c [T] (by rw [hc2, hx])
+  have hloc' : ∀ j, InB h.dataShape j →
+      InB g.dataShape (dataIdx g (h.canonIdx j)) ∧ g.coordAt (dataIdx g (h.canonIdx j)) = h.coordAt j := by
+    intro j hj
+    have hin : InB (xyzShape g) (h.canonIdx j) := by rw [hx]; exact canonIdx_inB h hh j hj
+    refine ⟨dataIdx_inB g hg _ hin, ?_⟩
+    rw [hloc _ hin, dataIdx_canonIdx h hh j hj]
+  have ha1 : (if (true && !g.rev) = true then a.moveFirstToLast else a) =
+      (if g.rev then a else a.moveFirstToLast) := by cases g.rev <;> rfl
+  simp only [SGrid.trans, hasTime, ha1, hc1, hb1]
+  cases hr : h.rev with
+  | true =>
+    simp only [hr, if_true, List.reverse_cons, List.reverse_nil, List.nil_append, List.cons_append] at hb2 hb3
+    refine ⟨b, by simp, hb2, fun t j hj => ⟨?_, hloc' j hj⟩⟩
+    have := hb3 j [t] hj.length_eq rfl
+    simp only [List.cons_append, List.nil_append, List.reverse_cons, List.reverse_nil] at this
+    rw [this, hc3 _ t (hcl j hj)]
+  | false =>
+    simp only [hr, Bool.false_eq_true, if_false] at hb2 hb3
+    have hm := fun i t => moveLastToFirst_get b T h.dataShape hb2 i t
+    refine ⟨b.moveLastToFirst, by simp, (hm [] 0).1, fun t j hj => ⟨?_, hloc' j hj⟩⟩
+    rw [(hm j t).2, hb3 j [t] hj.length_eq rfl, hc3 _ t (hcl j hj)]
+
+/-- the same without a time axis (direct use of the transform on data in the source data shape) -/
+theorem transform_preserves_location_no_time {α} (g h : SGrid) (hg : WF g) (hh : WF h)
+    (hc : g.compatibleWith h = true) (a : Arr α) (ha : a.shape = g.dataShape) :
+    ∃ r, SGrid.trans g h a = .ok r ∧ r.shape = h.dataShape ∧
+      ∀ j, InB h.dataShape j →
+        r.get j = a.get (dataIdx g (h.canonIdx j)) ∧
+        InB g.dataShape (dataIdx g (h.canonIdx j)) ∧
+        g.coordAt (dataIdx g (h.canonIdx j)) = h.coordAt j := by
+  obtain ⟨hx, hloc⟩ := compatible_same_locations g h hg hh hc
+  have noTime : (a.ndim == g.dataShape.length + 1) = false := by simp [Arr.ndim, ha]
+  obtain ⟨c, hc1, hc2, hc3⟩ := toCanonical_spec g hg a [] (by simp [ha])
+  obtain ⟨b, hb1, hb2, hb3⟩ := fromCanonical_spec h hh c [] (by rw [hc2, hx])
+  simp only [SGrid.trans, noTime, Bool.false_and, Bool.false_eq_true, if_false, hc1, hb1]
+  refine ⟨b, rfl, by simpa using hb2, fun j hj => ?_⟩
+  have hin : InB (xyzShape g) (h.canonIdx j) := by rw [hx]; exact canonIdx_inB h hh j hj
+  refine ⟨?_, dataIdx_inB g hg _ hin, by rw [hloc _ hin, dataIdx_canonIdx h hh j hj]⟩
+  have h1 := hb3 j [] hj.length_eq rfl
+  have h2 := hc3 (h.canonIdx j) [] hin.length_eq rfl
+  simp only [List.append_nil, List.nil_append, List.reverse_nil, ite_self] at h1 h2
+  rw [h1, h2]
+
+theorem compatible_symm (g h : SGrid) (hc : g.compatibleWith h = true) : h.compatibleWith g = true := by
+  obtain ⟨a, b, c, d⟩ := (compatible_iff_same_locations g h).mp hc
+  exact (compatible_iff_same_locations h g).mpr ⟨a.symm, b.symm, c.symm, d.symm⟩
+
+/-- **C15, third sentence, at the input.** What `Input.pull_data` delivers for compatible but
+    differently laid-out grids (`prepare` has put the time axis in front): the exchange succeeds,
+    the shape check of `tools.check` passes and every delivered element is the source element
+    located at the same physical coordinate. -/
+theorem deliver_preserves_location {α} (g h : SGrid) (hg : WF g) (hh : WF h)
+    (hc : g.compatibleWith h = true) (hne : g.eqGrid h = false) (a : Arr α) (T : Nat)
+    (ha : a.shape = T :: g.dataShape) :
+    ∃ r, SGrid.deliver g h a = .ok r ∧ r.shape = T :: h.dataShape ∧
+      ∀ t j, InB h.dataShape j →
+        r.get (t :: j) = a.get (t :: dataIdx g (h.canonIdx j)) ∧
+        g.coordAt (dataIdx g (h.canonIdx j)) = h.coordAt j := by
+  obtain ⟨r, h1, h2, h3⟩ := transform_preserves_location g h hg hh hc a T ha
+  refine ⟨r, ?_, h2, fun t j hj => ⟨(h3 t j hj).1, (h3 t j hj).2.2⟩⟩
+  simp [SGrid.deliver, compatible_symm g h hc, getTransformTo, hc, hne, h1, checkShape, Arr.ndim, h2]
+
+/-- **C15, last clause.** Grids that compare equal (compatible, same axes order and directions;
+    `order` may differ) get no transform: the data is handed through unchanged, and that is right
+    because equal grids place every data index at the same coordinate. -/
+theorem equal_layout_is_passthrough {α} (g h : SGrid) (hg : WF g) (hh : WF h) (he : g.eqGrid h = true)
+    (a : Arr α) (T : Nat) (ha : a.shape = T :: g.dataShape) :
+    g.getTransformTo h = .ok .passThrough ∧ SGrid.deliver g h a = .ok a ∧
+    g.dataShape = h.dataShape ∧ ∀ j, InB g.dataShape j → g.coordAt j = h.coordAt j := by
+  unfold eqGrid at he
+  by_cases hc : g.compatibleWith h = true
+  · rw [if_neg (by simp [hc])] at he
+    simp only [Bool.and_eq_true, beq_iff_eq] at he
+    obtain ⟨hinc, hrev⟩ := he
+    obtain ⟨hd, _, hl, hax⟩ := (compatible_iff_same_locations g h).mp hc
+    have hincl : g.inc.length = h.inc.length := by rw [hg.inc_len, hh.inc_len, hax]
+    have hinc' : g.inc = h.inc := (zip_all_eq g.inc h.inc hincl).mp hinc
+    have hla : g.locAxes = h.locAxes := by unfold locAxes cellAxes; rw [hl, hax]
+    have hsh : g.dataShape = h.dataShape := by
+      have := shape_relation g h hax hl
+      rw [this, hrev]; simp
+    have heq : g.eqGrid h = true := by
+      unfold eqGrid; rw [if_neg (by simp [hc])]; simp [hinc, hrev]
+    refine ⟨by simp [getTransformTo, hc, heq], ?_, hsh, ?_⟩
+    · simp [SGrid.deliver, compatible_symm g h hc, getTransformTo, hc, heq, checkShape, Arr.ndim, ha, hsh]
+    · intro j hj
+      rw [coordAt_canon g hg j hj, coordAt_canon h hh j (hsh ▸ hj), canonIdx_eq g hg, canonIdx_eq h hh]
+      unfold xyzShape
+      rw [hla, hinc', hrev]
+  · rw [if_pos (by simp [hc])] at he; cases he
+
+/-! ### Non-vacuity: a 2x3-cell geometry in two layouts, data with a time axis -/
+
+def exSrc : SGrid := ⟨[[0, 1, 2], [0, 2, 4, 6]], [true, true], false, .F, .cells, none⟩
+def exDst : SGrid := ⟨[[0, 1, 2], [0, 2, 4, 6]], [true, false], true, .C, .cells, none⟩
+def exArr : Arr Int := Arr.ofFlat .C [1, 2, 3] [0, 1, 2, 3, 4, 5] 0
+
+example : WF exSrc ∧ WF exDst := by
+  refine ⟨⟨?_, rfl, by decide⟩, ⟨?_, rfl, by decide⟩⟩ <;> (intro ax hax; simp [exSrc, exDst] at hax; rcases hax with h | h <;> simp [h])
+
+example : exSrc.compatibleWith exDst = true ∧ exSrc.eqGrid exDst = false ∧ exArr.shape = 1 :: exSrc.dataShape ∧
+    (SGrid.deliver exSrc exDst exArr).toOption.map (fun r => (r.shape, r.toList)) =
+      some ([1, 3, 2], [2, 5, 1, 4, 0, 3]) := by decide +kernel
+
+example : (exSrc.toCanonical (Arr.ofFlat .C [2, 3] [0, 1, 2, 3, 4, 5] (0 : Int))).toOption.map (·.toList) =
+    some [0, 1, 2, 3, 4, 5] ∧
+    (exDst.toCanonical (Arr.ofFlat .C [3, 2] [2, 5, 1, 4, 0, 3] (0 : Int))).toOption.map (·.toList) =
+    some [0, 1, 2, 3, 4, 5] := by decide +kernel
+
+/-- equal layouts (only `order` differs): no transform, the array is delivered as it is -/
+def exSame : SGrid := { exSrc with order := .C }
+example : exSrc.eqGrid exSame = true ∧ exSrc.getTransformTo exSame = .ok .passThrough ∧
+    (SGrid.deliver exSrc exSame exArr).toOption.map (fun r => (r.shape, r.toList)) =
+      some ([1, 2, 3], [0, 1, 2, 3, 4, 5]) := by decide +kernel
 
 end Finam.Props.C15
